@@ -44,7 +44,7 @@ struct C05 : Property
 		return {"put.last_reference_frees", "put.not_last_reference", "cascade.children_destroyed_with_parent", "child_outlives_parent", "replace.releases_old_value", "replace.same_key_twice",
 		        "delete.member_with_extra_ref_survives", "array.put_over_occupied_slot", "array.del_range_releases", "array.out_of_range_refused", "object.self_add_refused",
 		        "userdata.replaced_callback_runs", "deep_copy.ok", "pointer_set.ok", "pointer_set.failed_value_kept", "patch.ok", "patch.failed", "patch.copy_from", "shared_node_in_two_containers",
-		        "alloc_failure.value_kept_by_caller", "parse.tree_from_parser", "userdata.same_pointer_reinstalled", "object.filled_past_growth_threshold"};
+		        "alloc_failure.value_kept_by_caller", "parse.tree_from_parser", "userdata.same_pointer_reinstalled", "object.filled_past_growth_threshold", "deep_copy.refused_midway_unwound"};
 	}
 
 	// ------------------------------------------------------------------ generation
@@ -711,7 +711,19 @@ struct C05 : Property
 				else
 				{
 					struct json_object *dst = nullptr;
-					int rc = LIB(json_object_deep_copy(n, &dst, tracking_shallow_copy));
+					// every other copy uses json-c's default copier: it refuses nodes that carry userdata it does not know (a natural,
+					// documented failure in the middle of a copy) - the partial copy must then be unwound without trace
+					bool use_default = op.arg(3) & 1;
+					bool has_foreign_userdata = false;
+					if (use_default)
+					{
+						std::set<void *> sub;
+						collect(n, sub);
+						for (void *x : sub)
+							if (LIB(json_object_get_userdata((struct json_object *)x)) != nullptr && LIB(json_object_get_type((struct json_object *)x)) != json_type_double)
+								has_foreign_userdata = true;
+					}
+					int rc = LIB(json_object_deep_copy(n, &dst, use_default ? nullptr : tracking_shallow_copy));
 					if (rc == 0 && dst)
 					{
 						s.handles[(size_t)slot] = dst;
@@ -722,7 +734,9 @@ struct C05 : Property
 						outcome = "failed";
 						if (dst)
 							ctx.fail("C05:failed-copy-left-result", "op %zu: deep_copy returned %d but *dst is set", oi, rc);
-						if (!g_alloc.fired)
+						if (use_default && has_foreign_userdata)
+							ctx.probe("deep_copy.refused_midway_unwound");
+						else if (!g_alloc.fired)
 							ctx.fail("C05:spurious-failure", "op %zu: json_object_deep_copy failed without cause", oi);
 					}
 				}
